@@ -224,7 +224,13 @@ def prepare_group(args):
                 continue
             if ob.kind == 'L':
                 # function contract + loop contract with verification conditions generated by ll2c itself (assert/assume form)
-                dd = ob.dfcc
+                dd = dict(ob.dfcc)
+                if dd['target'] not in mod.funcs and dd.get('target_re'):
+                    # the parameter types (hence the mangled name) changed: the function is still the one under contract
+                    cands = [k for k in mod.funcs if re.search(dd['target_re'], k)]
+                    if len(cands) == 1:
+                        dd['contracts'] = {(cands[0] if k == dd['target'] else k): v for k, v in dd['contracts'].items()}
+                        dd['target'] = cands[0]
                 cs = {k: dict(v, mode='vc') for k, v in dd['contracts'].items()}
                 ctext, info = ll2c.emit_closure(mod, [dd['target']], srcroot=REPO.rstrip('/') + '/', contracts=cs, stubs=set(dd.get('replace', [])),
                                                  abstract=tuple(dd.get('pure', ())))
@@ -604,7 +610,8 @@ def solve_static(ob, workdir):
         r.status = 'proved'
     else:
         r.status = 'failed'
-        kind = 'static_assert failed (compile-time answer differs from the documented formula)' if any('VF_STATIC_FACT' in e for c, e in bad) \
+        mism = any(re.search(r'(static_assert failed|static assertion failed)[^\n]*VF_STATIC_FACT', e) for c, e in bad)
+        kind = 'static_assert failed (compile-time answer differs from the documented formula)' if mism \
             else 'hard error: asking the question made the program ill-formed'
         r.failed_props = ['STATIC:%s [%s]' % (kind, ob.id)]
         r.log = '\n'.join('%s: %s' % (c, e[-1500:]) for c, e in bad)
